@@ -122,8 +122,8 @@ def run_cases_for(chk):
     # the backends' OWN fixed-step implementations (Torch, JAX): called directly and through run()
     from checks import c02 as _c02
     for c in _c02.families(chk.tier, chk.seed):
-        if c["kind"] == "loops" or (c["kind"] == "inputs_backend" and c["backend"] in ("torch", "jax") and c["solver"] in ("euler", "heun")):
-            cases.append(c)
+        if c["kind"] == "loops" or (c["kind"] == "inputs_backend" and c["backend"] in ("torch", "jax") and c["solver"] in ("euler", "heun", "scipy")):
+            cases.append(c)        # (scipy: the adaptive path of the Torch / JAX backends with a time-dependent input, i.e. through their own `interp`)
     results = driver.run_family(
         chk, "run-vs-spec-iterates", cases, run_case, site="C03/run",
         rule="models F1/F2/F6/F7/F8 x euler/heun x (T, dt, dts) grid with dts/dt in {1,2,3,5} x cut-offs (off-grid and on-grid) x "
